@@ -13,7 +13,7 @@ from typing import Optional
 
 from sim import gen, nucsio, seams
 from sim import refmodel as R
-from sim.families.e1_engine import SOLVER_BUDGET, classify_exception, where_of
+from sim.families.e1_engine import SOLVER_BUDGET, classify_exception, step_budget, where_of
 from sim.kernel import Choices, sha
 from sim.steps import CLOCK, StepBudgetExceeded
 
@@ -138,7 +138,7 @@ def rewrite(ch: Choices, model: dict, kind: str):
 
 
 def solve(model, cfg, mode, viol, ctx):
-    CLOCK.set_budget(SOLVER_BUDGET)
+    CLOCK.set_budget(step_budget(model, cfg))
     try:
         problem = nucsio.build_problem(model)
         solver = nucsio.build_solver(problem, cfg)  # a model that respects the contracts must be accepted
